@@ -304,6 +304,9 @@ def _unbound(toks, match):
     """clause 3 - scope analysis over the token stream (approximate; unknown constructs are not flagged)"""
     errs = []
     n = len(toks)
+    # `{name}` is reported as template residue (clause 1); do not report `name` again as an unbound variable
+    residue = {i + 1 for i in range(n - 2) if toks[i].kind == "p" and toks[i].text == "{" and
+               toks[i + 1].kind in ("id", "qid") and toks[i + 2].kind == "p" and toks[i + 2].text == "}"}
     if n == 0:
         return errs
     # schema commands: CREATE|DROP INDEX|CONSTRAINT ... FOR (n:Label) ON (n.prop, ...)
@@ -371,7 +374,7 @@ def _unbound(toks, match):
                 pending |= scope
             i += 1
             continue
-        if t.kind not in ("id", "qid"):
+        if t.kind not in ("id", "qid") or i in residue:
             i += 1
             continue
         up = t.text.upper() if t.kind == "id" else None
@@ -559,10 +562,11 @@ def return_columns(text):
 # 3. template differ (clause 4)
 # ----------------------------------------------------------------------------------------------------------
 
-def diff_statements(text_a, allowed_a, text_b, allowed_b):
+def diff_statements(text_a, allowed_a, text_b, allowed_b, mapping=None):
     """Clause 4.  Returns None if the two texts are equal or differ only inside well-formed string literals that
     decode exactly to a supplied value (allowed_x = set of strings supplied in run x); otherwise a short
-    explanation."""
+    explanation.  `mapping` (optional) = {value supplied in run a: value supplied in the same role in run b}: a
+    literal of text a that decodes to a key must correspond to a literal of text b decoding to its image."""
     if text_a == text_b:
         return None
     ta, ea = lex(text_a)
@@ -580,6 +584,12 @@ def diff_statements(text_a, allowed_a, text_b, allowed_b):
                 continue
             if x.value is None or y.value is None:
                 return "texts differ inside a string literal with an illegal escape"
+            if mapping is not None and x.value in mapping:
+                if y.value != mapping[x.value]:
+                    return (f"texts differ inside a string literal that does not decode to the supplied value "
+                            f"(literal {y.text[:60]!r} decodes to {y.value[:60]!r}, supplied "
+                            f"{mapping[x.value][:60]!r})")
+                continue
             if x.value not in allowed_a or y.value not in allowed_b:
                 bad = x if x.value not in allowed_a else y
                 return (f"texts differ inside a string literal that does not decode to a supplied value "
